@@ -13,6 +13,13 @@ post-charging hook of a simulation) on a fresh `ChargingNetwork` of its own (`_T
 against that network.  The model, in contrast, is fed what the Interface handed out (that is the algorithm's
 input), so a stale / wrong view in the Interface shows as an oracle failure, not as a disagreement.
 C08 adds its own stream of NETWORK HISTORIES on one Simulator/Interface (`_gen_history`, `_run_history`).
+
+"Own bound": the clauses of the property are relative to each session's OWN bound.  The oracle computes it from first
+principles (`_own_bounds`): the session as handed to schedule(), its EVSE's maximum / minimum pilot, its remaining
+demand, and the dict the upper-bound estimator returned in that call read AT THE SESSION'S OWN SESSION ID -- never from
+what the implementation left in the SessionInfo objects.  The estimator is ANY UpperBoundEstimatorBase subclass (table
+estimators, stateless and stateful, next to SimpleRampdown); drv_C08 runs the estimator-parametric model
+`Sorted.scheduleCallEst` (shared with C07), the returned dict is an input of each model call.
 """
 from __future__ import annotations
 
@@ -28,7 +35,7 @@ from core import impl as I
 from props import C07 as B
 
 ID = "C08"
-LEAN_MODULES = ["AcnProofs.C08"]
+LEAN_MODULES = ["AcnProofs.C08", "AcnProofs.C08Est"]
 TIE_MODULES = ["AcnProofs.Lemmas.CodeTieSorted"]
 DRIVER = "drv_C08"
 REQUIRED_THEOREMS = [
@@ -37,6 +44,11 @@ REQUIRED_THEOREMS = [
     "Acn.C08.greedy_sequential", "Acn.C08.rr_stop_reason", "Acn.C08.rr_continues",
     "Acn.C08.rr_measure_decreases", "Acn.C08.rr_terminates", "Acn.C08.uncontrolled_lookup",
     "Acn.C08.uncontrolled_spec", "Acn.C08.uncontrolled_mem",
+    # every clause for an ARBITRARY upper-bound estimator (AcnProofs/C08Est.lean; model: Sorted.scheduleCallEst)
+    "Acn.C08.own_bound_any_estimator", "Acn.C08.greedy_call_is_sortingAlgorithm",
+    "Acn.C08.greedy_sequential_any_estimator", "Acn.C08.greedy_max_feasible_any_estimator",
+    "Acn.C08.greedy_max_feasible_any_estimator_alg", "Acn.C08.greedy_discrete_largest_any_estimator",
+    "Acn.C08.rr_stop_iff_blocked_any_estimator",
 ]
 BUDGET = {"quick": 700, "thorough": 5000, "search": 1000}
 TRUSTED = B.TRUSTED + [
@@ -51,6 +63,9 @@ ASSUMPTIONS = B.ASSUMPTIONS + [
     "other predicates",
 ]
 ASSUMPTIONS = ASSUMPTIONS + [
+    "the theorems for an arbitrary estimator (C08Est) are about the preprocessed sessions of the call; lb <= ub for the "
+    "session and enough bisection fuel (ub - lb <= eps 2^fuel) are hypotheses of the continuous greedy clause; finite "
+    "level lists are ascending",
     "'feasible' is judged against the network as it is at the moment of each schedule() call; stations are fixed for "
     "the life of a network (register_evse refuses once a constraint exists), constraints may be added, updated "
     "(same or new name), removed and re-added at any time between calls",
@@ -67,7 +82,19 @@ RULE = B.RULE + ("; C08 counts a case as non-trivial when some grant is strictly
                  "thorough tier also enumerates two-call histories exhaustively in a small scope (2 stations x kind "
                  "combinations x limit grid^2 x every single mutation x occupancy x both algorithms); every call, "
                  "in every stream, is judged against the network rebuilt from the case's own history (oracle "
-                 "reference), while the model receives the constraint view the Interface handed out")
+                 "reference), while the model receives the constraint view the Interface handed out; "
+                 "ARBITRARY ESTIMATORS (a further fifth of the budget, private sub-generator, the stream above is "
+                 "unchanged; C07's table-estimator corpus cases are no longer filtered out): table estimators returning any "
+                 "dict -- bounds above the EVSE maximum, inf, zero, negative, below the minimum pilot, between / on finite "
+                 "levels, key missing, keys of idle sessions, of no session, STATION ids, session ids that are another "
+                 "session's station id; 3/8 direct calls with distinct priority keys, 3/8 NETWORK HISTORIES of 2-4 calls "
+                 "through one algorithm object with a STATEFUL table estimator (it counts how often it was handed each "
+                 "session: sessions that joined later sit at different columns), 1/8 exact dyadic, 1/8 whole simulations; "
+                 "the thorough tier adds C07's exhaustive estimator scope and an exhaustive scope of three-call histories "
+                 "with the stateful estimator under a binding pod limit (2 stations x kinds x 2 limits x 36 answer pairs x "
+                 "algorithms x fcfs/lcfs x uninterrupted); the oracle derives every session's own bound from the "
+                 "estimator's dict + EVSE + demand and judges greedy (max feasible within the own bound, exact largest "
+                 "level) and round robin (replay: stops only when blocked or at the own bound) against it")
 
 EPS = 0.01          # eps passed to max_feasible_rate by sorting_algorithm (Gen.Consts.greedyEps)
 ATOL, RTOL = 1e-5, 1e-7
@@ -92,10 +119,48 @@ def _site_limit_history(algo, finite, sort="fcfs", limits=(70, 40, 88, 24)):
 
 
 def corpus():
-    # the table-estimator cases of C07 (est_spec: an arbitrary UpperBoundEstimatorBase subclass) belong to C07's model
-    # (AcnModel/SortedEst.lean); drv_C08 models the rampdown estimator only
-    return [c for c in B.corpus() if not c.get("est_spec")] + [_site_limit_history("greedy", False), _site_limit_history("greedy", True, "lcfs"),
-                         _site_limit_history("rr", False)]
+    # C07's corpus INCLUDING its table-estimator cases (est_spec: an arbitrary UpperBoundEstimatorBase subclass):
+    # drv_C08 runs the estimator-parametric model (Sorted.scheduleCallEst), the dict the estimator returned is an
+    # input of every model call
+    return B.corpus() + [_site_limit_history("greedy", False), _site_limit_history("greedy", True, "lcfs"),
+                         _site_limit_history("rr", False)] + _est_corpus()
+
+
+def _est_corpus():
+    """arbitrary estimators under a BINDING limit, session ids that are other sessions' station ids, a STATEFUL
+    table estimator over three calls of one algorithm object: every column of the table is used; the bounds are above
+    the EVSE maximum, inf, zero, below the minimum pilot, between finite levels, missing; foreign keys"""
+    stations = [{"id": "st-0", "line": "AB", "evse": {"t": "cont", "min": 0, "max": 32}, "volt": 208, "phase": 0},
+                {"id": "st-1", "line": "AB", "evse": {"t": "finite", "rates": B.CC}, "volt": 208, "phase": 0},
+                {"id": "st-2", "line": "AB", "evse": {"t": "finite", "rates": B.AV}, "volt": 240, "phase": 0},
+                {"id": "st-3", "line": "AB", "evse": {"t": "cont", "min": 0, "max": 48}, "volt": 208, "phase": 0}]
+    coef = {s["id"]: 1.0 for s in stations}
+    evs = [{"session": "st-1", "station": "st-0", "arrival": 1, "departure": 40, "est": 40, "requested": 40.0,
+            "delivered": 1.0, "prev_pilot": 32, "rate": 30.0, "max_override": None},
+           {"session": "st-0", "station": "st-1", "arrival": 2, "departure": 35, "est": 30, "requested": 40.0,
+            "delivered": 2.0, "prev_pilot": 16, "rate": 16.0, "max_override": None},
+           {"session": "sess-2", "station": "st-2", "arrival": 3, "departure": 50, "est": 50, "requested": 64.0,
+            "delivered": 0.5, "prev_pilot": 0, "rate": 0.0, "max_override": None},
+           {"session": "st-2", "station": "st-3", "arrival": 4, "departure": 50, "est": 45, "requested": 64.0,
+            "delivered": 0.5, "prev_pilot": 0, "rate": 0.0, "max_override": None}]
+    table = {"st-1": [100, 5, None, 20.5],        # the session ON st-0
+             "st-0": [None, 10, 1e6, 24],          # the session ON st-1 (levels 0 8 16 24 32)
+             "sess-2": ["inf", 3, 0, 17.5],        # on st-2 (levels 0, 6..32)
+             "st-2": [40, 12.5, 60, None],         # the session ON st-3 (continuous up to 48)
+             "st-3": [0], "idle-9": [1], "": [7]}
+    out = []
+    for algo, sort in (("greedy", "fcfs"), ("greedy", "lcfs"), ("rr", "edf")):
+        for un in (False, True):
+            for lim in (60.0, 95.0):
+                calls = []
+                for c in range(4):
+                    ops = [] if c != 2 else [{"op": "update", "name": "main", "coef": coef, "limit": lim - 20}]
+                    calls.append({"time": 6 + c, "evs": evs, "order": [2, 0, 3, 1], "ops": ops})
+                out.append({"mode": "direct", "history": ["limit_last"], "period": 5, "algo": algo, "sort": sort,
+                            "uninterrupted": un, "estimate": True, "inc": 0.5, "ramp": {"up": 1, "down": 1, "inc": 1},
+                            "stations": stations, "constraints": [{"name": "main", "coef": coef, "limit": lim}],
+                            "est_spec": {"table": table, "stateful": True}, "calls": calls})
+    return out
 
 
 # ------------------------------------------------------------------ network histories on ONE Interface
@@ -324,11 +389,126 @@ def enumerate_histories():
     return out
 
 
+# ---- arbitrary upper-bound estimators (table estimators; C07.py documents "est_spec") -------------------------
+# "est_spec": {"table": {key: [bound | None, ...]}, "stateful": bool}.  Stateless (C07's TableEstimator): the column is
+# chosen by the period.  STATEFUL (C08's own, `_StatefulTable`): the estimator object counts how often it has been
+# handed each session; a session's bound is the entry at ITS OWN count (so two sessions are at different columns as soon
+# as one of them joined later), a foreign key's the entry at the number of calls so far.
+
+def _gen_est_history(rng, exact=False):
+    """a network history (2-4 schedule() calls through ONE algorithm / estimator object, sessions that persist, leave and
+    are replaced, the network mutated in between) with a STATEFUL table estimator"""
+    case = None
+    for _ in range(6):
+        case = _gen_history(rng, exact)
+        if case["algo"] != "uncontrolled":
+            break
+    if case["algo"] == "uncontrolled":
+        case["algo"] = rng.choice(["greedy", "rr"])
+    case["estimate"] = True
+    sessions = []
+    for call in case["calls"]:
+        for ev in call["evs"]:
+            if (ev["session"], ev["station"]) not in sessions:
+                sessions.append((ev["session"], ev["station"]))
+    if rng.random() < 0.5:
+        # remaining demand far above the EVSE maximum: the estimator / the network is the limit, not the session
+        for sid, _st in sessions:
+            if rng.random() < 0.6:
+                req, dl = float(rng.choice([20, 40, 64])), float(rng.choice([0, 1, 2.5]))
+                for k, call in enumerate(case["calls"]):
+                    for ev in call["evs"]:
+                        if ev["session"] == sid:
+                            ev["delivered"] = dl + 0.25 * k       # still progressing from call to call
+                            ev["requested"] = req
+    spec = B._gen_est_spec(rng, case["stations"], sessions)
+    for sid in list(spec["table"]):
+        if rng.random() < 0.6:      # several columns: the state matters
+            st = next((stid for s2, stid in sessions if s2 == sid), None)
+            if st is not None:
+                by_id = {x["id"]: x for x in case["stations"]}
+                spec["table"][sid] = [B._gen_bound(rng, by_id[st]) for _ in range(rng.choice([2, 3, 4]))]
+    spec["stateful"] = True
+    case["est_spec"] = spec
+    if rng.random() < 0.25:
+        B._loosen(rng, case)
+        for call in case["calls"]:
+            for o in call.get("ops") or []:
+                if "limit" in o:
+                    o["limit"] = o["limit"] * 3
+    return case
+
+
+def _gen_est_direct(rng, exact=False):
+    """C07's table-estimator case (every class of bound, foreign keys, session ids that are station ids) with the
+    priority keys made distinct where possible, so that the order in which the own bounds are applied is fixed"""
+    case = B._gen_custom_direct(rng, exact)
+    for call in case["calls"]:
+        seen_a, seen_e = set(), set()
+        for ev in call["evs"]:
+            if rng.random() < 0.7:
+                while ev["arrival"] in seen_a and ev["arrival"] > 0:
+                    ev["arrival"] -= 1
+                while ev["est"] in seen_e:
+                    ev["est"] += 1
+            seen_a.add(ev["arrival"])
+            seen_e.add(ev["est"])
+            ev["est"] = max(ev["est"], ev["arrival"] + 1)
+    return case
+
+
+def _gen_est(rng, n):
+    out = []
+    for i in range(n):
+        r = i % 8
+        if r in (1, 4, 6):
+            out.append(_gen_est_history(rng, exact=(r == 6)))
+        elif r == 7:
+            out.append(B._gen_custom_sim(rng))
+        else:
+            out.append(_gen_est_direct(rng, exact=(r == 3)))
+    return out
+
+
+def enumerate_est_histories():
+    """Exhaustive small scope for arbitrary estimators under a BINDING pod limit (thorough tier): two stations of every
+    kind combination, limit 20 A / 26 A, a STATEFUL table estimator over two calls in which the second session joins
+    late (so the two sessions sit at different columns), every pair of two-column answers from a grid holding each class
+    (no key, zero, below the minimum pilot, between levels, a level, the EVSE maximum, above it, inf), both
+    algorithms, fcfs / lcfs, uninterrupted on / off."""
+    import itertools
+    kinds = [{"t": "cont", "min": 0, "max": 16}, {"t": "finite", "rates": [0, 8, 16]}]
+    grid = [[None, 3], [0, 10.5], [8, "inf"], [17, 12], [40, None], [10.5, 8]]
+    out = []
+    t, period, volt = 4, 5, 208
+    for ks in itertools.product(range(2), repeat=2):
+        stations = [{"id": f"st-{j}", "line": "AB", "evse": kinds[ks[j]], "volt": volt, "phase": 0.0} for j in range(2)]
+        for lim in (20.0, 26.0):
+            cons = [{"name": "c0", "coef": {"st-0": 1.0, "st-1": 1.0}, "limit": lim}]
+            evs = [{"session": f"st-{1 - j}", "station": f"st-{j}", "arrival": j, "departure": t + 5, "est": t + 5 - j,
+                    "requested": 30.0, "delivered": 1.0, "prev_pilot": 0, "rate": 0, "max_override": None}
+                   for j in range(2)]
+            for b0, b1 in itertools.product(grid, repeat=2):
+                table = {"st-1": b0, "st-0": b1, "ghost": [1]}
+                for algo, sort, un in itertools.product(("greedy", "rr"), ("fcfs", "lcfs"), (False, True)):
+                    out.append({"mode": "direct", "history": ["enumerated"], "period": period, "stations": stations,
+                                "constraints": cons,
+                                "calls": [{"time": t, "evs": evs[:1], "order": [0], "ops": []},
+                                          {"time": t + 1, "evs": evs, "order": [1, 0], "ops": []},
+                                          {"time": t + 2, "evs": evs, "order": [0, 1], "ops": []}],
+                                "ramp": {"up": 1, "down": 1, "inc": 1}, "algo": algo, "sort": sort,
+                                "uninterrupted": un, "estimate": True, "inc": 1, "enumerated": True,
+                                "est_spec": {"table": table, "stateful": True}})
+    return out
+
+
 def generate(rng, n, tier):
     out = []
     if tier == "thorough":
         out.extend(B.enumerate_small())
         out.extend(enumerate_histories())
+        out.extend(B.enumerate_small_est())
+        out.extend(enumerate_est_histories())
     for i in range(n):
         r = i % 12
         if r == 11:
@@ -342,6 +522,9 @@ def generate(rng, n, tier):
         if c["algo"] == "uncontrolled" and rng.random() < 0.5:
             c["algo"] = rng.choice(["greedy", "rr"])
         out.append(c)
+    # arbitrary estimators: a private generator seeded AFTER the stream above (which is therefore unchanged)
+    import random as _random
+    out.extend(_gen_est(_random.Random(rng.getrandbits(64)), max(40, n // 5)))
     return out
 
 
@@ -360,6 +543,43 @@ def _apply_ops(net, ops):
             raise ValueError(f"unknown network op {o}")
 
 
+def make_stateful_estimator(spec, rec):
+    """an UpperBoundEstimatorBase subclass WITH STATE (user code, as the package documents it): it counts how often it
+    has been handed each session and answers with the table entry at that count (foreign keys: at the number of calls)"""
+    from acnportal.algorithms import UpperBoundEstimatorBase
+
+    class StatefulTable(UpperBoundEstimatorBase):
+        def __init__(self):
+            super().__init__()
+            self.seen = {}
+            self.ncalls = 0
+
+        def get_maximum_rates(self, sessions):
+            handed = [s.session_id for s in sessions]
+            out = stateful_answer(spec, self.seen, self.ncalls, handed)
+            for sid in handed:
+                self.seen[sid] = self.seen.get(sid, 0) + 1
+            self.ncalls += 1
+            rec.est_log = {"dict": {k: I.enc(float(v)) for k, v in out.items()},
+                           "seen": [[s.session_id, s.station_id, I.enc(float(s.min_rates[0])), I.enc(float(s.max_rates[0]))]
+                                    for s in sessions]}
+            return out
+
+    return StatefulTable()
+
+
+def stateful_answer(spec, seen, ncalls, handed):
+    out = {}
+    for sid, seq in spec["table"].items():
+        if not seq:
+            continue
+        k = seen.get(sid, 0) if sid in handed else ncalls
+        v = seq[k % len(seq)]
+        if v is not None:
+            out[sid] = I.num(v)
+    return out
+
+
 def _run_history(case):
     """`C07._run_direct` with network mutations between the calls: ONE network, ONE Simulator, ONE Interface and
     ONE algorithm object for the whole history; every schedule() goes through the recorder of C07."""
@@ -369,6 +589,8 @@ def _run_history(case):
     rec = B._Recorder(case, net)
     rec.dynamic = True          # every call records the constraint view the Interface hands out (model input)
     algo = rec.make()
+    if case["estimate"] and (case.get("est_spec") or {}).get("stateful") and case["algo"] != "uncontrolled":
+        algo.max_rate_estimator = make_stateful_estimator(case["est_spec"], rec)     # before register_interface
     sim = Simulator(net, algo, EventQueue(), datetime(2020, 1, 1), period=case["period"], verbose=False)
     iface = algo.interface
     obs = {"infra": B.infra_obs(iface), "calls": rec.calls, "mode": "direct"}
@@ -515,6 +737,55 @@ def _same_view(c, M, lims):
     return a == b
 
 
+def _estimator_answer(case, c):
+    """the dict the estimator returned in this call (user code: an input of the property), None if it was not called.
+    Table estimators: recorded by the estimator object itself; SimpleRampdown: its dict after the update."""
+    if not case["estimate"]:
+        return {}
+    if case.get("est_spec") is not None:
+        ed = c.get("est_dict")
+        return None if ed is None else {k: I.num(v) for k, v in ed.items()}
+    return dict(c.get("bounds") or {})
+
+
+def _own_bounds(case, c, inf, idx, period, surv, feasible, n):
+    """Every surviving session's OWN bounds from first principles -- the session as it was handed to schedule()
+    (incoming min / max rate), its EVSE (maximum pilot, minimum pilot), its remaining demand and the ESTIMATOR'S DICT
+    read at the session's OWN SESSION ID (absent: no bound) -- never from what the implementation left in the
+    SessionInfo objects:
+        max = min(incoming max, EVSE max);  with an estimator: max = max(min(max, dict.get(session_id, inf)), min)
+        uninterrupted charging, in order of remaining time: the EVSE's minimum pilot becomes the session's minimum if
+        it fits into the remaining demand and is feasible together with the minima granted so far (max lifted to it);
+        otherwise the session is refused (both bounds 0)
+        lb = max(0, min);  greedy ub = min(max, remaining amp-periods);  round robin ub = min(max, EVSE max, remaining)
+    -> {session: (station index, lb, max, remaining amp-periods, min)}; `surv` must be in preprocessing order."""
+    ans = _estimator_answer(case, c)
+    if ans is None:
+        return None
+    out = {}
+    rates = [0.0] * n
+    for s in surv:
+        i = idx[s["station"]]
+        maxp, minp = I.num(inf["maxp"][i]), inf["minp"][i]
+        rap = _rap(s, inf, i, period)
+        mn = I.num(s["min"])
+        mx = min(I.num(s["max"]), maxp)
+        if case["estimate"]:
+            b = ans.get(s["session"], math.inf)
+            mx = max(min(mx, b), mn)
+        if case["uninterrupted"]:
+            y = list(rates)
+            y[i] = minp
+            if minp <= rap and feasible(y):
+                rates = y
+                mn = max(minp, mn)
+                mx = max(mx, mn)
+            else:
+                mn, mx = 0.0, 0.0
+        out[s["session"]] = (i, max(0.0, mn), mx, rap, mn)
+    return out
+
+
 def oracle(case, obs):
     fails = []
     inf = obs["infra"]
@@ -567,24 +838,29 @@ def oracle(case, obs):
         def feasible(x):
             return bool(net.is_feasible(np.array([[v] for v in x], dtype=float)))
 
-        bounds = {}
-        for sid in order:
-            s = by_id[sid]
-            i = idx[s["station"]]
-            post = c["post"][sid]
-            rap = _rap(s, inf, i, period)
-            lb = max(0.0, I.num(post[0]))
-            bounds[sid] = (i, lb, I.num(post[1]), rap)
+        bounds = _own_bounds(case, c, inf, idx, period, surv, feasible, n)
+        if bounds is None:
+            fails.append({"kind": "estimator_not_consulted",
+                          "detail": f"call {k}: estimate_max_rate is on, schedule() returned, get_maximum_rates was never called"})
+            continue
+        c["_own"] = {sid: [b[1], b[2]] for sid, b in bounds.items()}
         final = [c["schedule"][st][0] for st in ids]
         if case["algo"] == "greedy":
             x = [0.0] * n
             for sid in order:
-                i, lb, mx, rap = bounds[sid]
+                i, lb, mx, rap, _mn = bounds[sid]
                 x[i] = lb
             for sid in order:
-                i, lb, mx, rap = bounds[sid]
+                i, lb, mx, rap, _mn = bounds[sid]
                 ub = min(mx, rap)
                 r = final[i]
+                if r > max(ub, lb) + 1e-9 * (1 + abs(r)):
+                    fails.append({"kind": "greedy_exceeds_own_bound",
+                                  "detail": f"call {k}: session {sid} (station {ids[i]}) grant {r!r} > its own bound {max(ub, lb)!r} "
+                                            f"(EVSE max {inf['maxp'][i]}, remaining {rap!r}, estimator answer "
+                                            f"{(_estimator_answer(case, c) or {}).get(sid)!r}, lb={lb})"})
+                    x[i] = r
+                    continue
                 if inf["cont"][i]:
                     U = _closed_form_max(inf, x, i)
                     if ub < lb:
@@ -619,8 +895,7 @@ def oracle(case, obs):
             levels = {}
             x = [0.0] * n
             for sid in order:
-                i, lb, mx, rap = bounds[sid]
-                mn = I.num(c["post"][sid][0])
+                i, lb, mx, rap, mn = bounds[sid]
                 if inf["cont"][i]:
                     cnt = max(0, math.ceil((mx + inc / 2 - mn) / inc))
                     base = [mn + j * inc for j in range(cnt)]
@@ -649,6 +924,15 @@ def oracle(case, obs):
                 else:
                     reasons[sid] = "own_bound"
             for sid in order:
+                i, lb, mx, rap, _mn = bounds[sid]
+                own = max(lb, min(mx, I.num(inf["maxp"][i]), rap))
+                if final[i] > own + 1e-9 * (1 + abs(own)):
+                    fails.append({"kind": "round_robin_exceeds_own_bound",
+                                  "detail": f"call {k}: session {sid} (station {ids[i]}) got {final[i]!r} > its own bound {own!r} "
+                                            f"(EVSE max {inf['maxp'][i]}, remaining {rap!r}, estimator answer "
+                                            f"{(_estimator_answer(case, c) or {}).get(sid)!r}, lb={lb})"})
+                    break
+            for sid in order:
                 i = bounds[sid][0]
                 if not close(final[i], x[i]):
                     fails.append({"kind": "round_robin_stop_wrong",
@@ -659,8 +943,67 @@ def oracle(case, obs):
     return fails
 
 
+def _est_own_features(case, obs, c, idx):
+    """which class of answer the estimator gave for each session in this call, and which part of the own bound decided"""
+    inf = obs["infra"]
+    out = []
+    ans = _estimator_answer(case, c) or {}
+    active = {s["session"] for s in c["sessions"]}
+    for key in ans:
+        if key not in active:
+            out.append("est_key:" + ("station_id" if key in set(inf["ids"]) else "not_an_active_session"))
+    for s in c["sessions"]:
+        i = idx[s["station"]]
+        maxp, minp = I.num(inf["maxp"][i]), inf["minp"][i]
+        b = ans.get(s["session"])
+        if b is None:
+            out.append("est_bound:missing")
+            continue
+        lv = None if inf["cont"][i] else [I.num(a) for a in inf["allow"][i]]
+        if math.isinf(b):
+            out.append("est_bound:inf")
+        elif b > maxp:
+            out.append("est_bound:above_evse_max")
+        elif b == maxp:
+            out.append("est_bound:equals_evse_max")
+        elif b < 0:
+            out.append("est_bound:negative")
+        elif b == 0:
+            out.append("est_bound:zero")
+        elif 0 < b < minp:
+            out.append("est_bound:below_min_pilot" + (":uninterrupted" if case["uninterrupted"] else ""))
+        elif lv is not None and not any(b == a for a in lv):
+            out.append("est_bound:between_levels")
+        else:
+            out.append("est_bound:interior")
+        if c["err"] is None and "schedule" in c and s["session"] in (c.get("_own") or {}):
+            p = c["schedule"][s["station"]][0]
+            lb, mx = c["_own"][s["session"]]
+            rap = _rap(s, inf, i, case["period"])
+            if close(p, min(mx, rap)) and mx < min(maxp, rap) - 1e-9 and p > lb:
+                out.append("own_bound:estimator_decided")
+            elif p < min(mx, rap) - 0.011:
+                out.append("own_bound:network_decided_below_estimator_bound" if b < maxp else "own_bound:network_decided")
+    return out
+
+
 def features(case, obs):
-    out = B.features(case, obs)
+    spec = case.get("est_spec") or {}
+    if spec.get("stateful") and case["estimate"]:
+        # C07's evidence helper reads a stateless table; the stateful estimator's answers are the recorded ones
+        base = {k: v for k, v in case.items() if k != "est_spec"}
+        out = B.features(base, obs)
+        out.append("est:True:arbitrary_estimator:stateful")
+        for c in obs["calls"]:
+            out.append("estimator_called:" + str(c.get("est_dict") is not None))
+    else:
+        out = B.features(case, obs)
+    if case["estimate"] and case.get("est_spec") is not None and case["algo"] != "uncontrolled":
+        idx0 = {s: i for i, s in enumerate(obs["infra"]["ids"])}
+        for c in obs["calls"]:
+            own = [f for f in _est_own_features(case, obs, c, idx0)
+                   if spec.get("stateful") or f.startswith("own_bound:")]
+            out.extend(own)
     for c in obs["calls"]:
         for sid, r in (c.get("_reasons") or {}).items():
             out.append("rr_stop:" + r)
